@@ -28,9 +28,8 @@ theorem geteuid_safe : Safe (Disc b) Sys.geteuid (fun _ => True) := by
   dsimp only
   split <;> exact trivial
 
-theorem freeze_probe_safe (fuel : Nat)
-    (hf : ∀ fd, Safe (Disc b) (Sys.freeze fuel fd) (fun _ => True)) :
-    ∀ cands, Safe (Disc b) (Sys.freeze.probe fuel cands) (fun _ => True) := by
+theorem freeze_probe_safe :
+    ∀ cands, Safe (Disc b) (Sys.freeze.probe cands) (fun _ => True) := by
   intro cands
   induction cands with
   | nil => rw [Sys.freeze.probe.eq_1]; exact trivial
@@ -40,29 +39,18 @@ theorem freeze_probe_safe (fuel : Nat)
     · exact ⟨rfl, Or.inr ⟨rfl, startsWith_proc cand⟩⟩
     · dsimp only
       split
-      · apply Safe.bind (hf _)
-        intro ok _
-        split
-        · exact ih
-        · exact trivial
+      · exact ih
       · exact trivial
 
-theorem freeze_safe (fuel : Nat) : ∀ fd, Safe (Disc b) (Sys.freeze fuel fd) (fun _ => True) := by
-  induction fuel with
-  | zero => intro fd; rw [Sys.freeze.eq_1]; exact trivial
-  | succ n ih =>
-    intro fd
-    rw [Sys.freeze.eq_2]
-    apply Safe.bind gettid_safe
-    intro tid _
-    apply Safe.bind (freeze_probe_safe n ih _)
-    intro x _
-    split
-    · exact trivial
-    · exact trivial
-    · split
-      · exact trivial
-      · exact ⟨startsWith_proc4 _ _ _, fun _ _ => trivial⟩
+theorem freeze_safe (fd : Fd) : Safe (Disc b) (Sys.freeze fd) (fun _ => True) := by
+  unfold Sys.freeze
+  apply Safe.bind gettid_safe
+  intro tid _
+  apply Safe.bind (freeze_probe_safe _)
+  intro x _
+  split
+  · exact trivial
+  · exact ⟨startsWith_proc4 _ _ _, fun _ _ => trivial⟩
 
 theorem failWith_go_safe {α : Type} (e : Nat) (Q : Except Err α → Prop) (hq : ∀ e', Q (.error e')) :
     ∀ fds, Safe (Disc b) (Sys.failWith.go (α := α) e fds) Q := by
@@ -71,11 +59,9 @@ theorem failWith_go_safe {α : Type} (e : Nat) (Q : Except Err α → Prop) (hq 
   | nil => unfold Sys.failWith.go; exact hq _
   | cons fd rest ih =>
     unfold Sys.failWith.go
-    apply Safe.bind (freeze_safe _ fd)
-    intro ok _
-    split
-    · exact ih
-    · exact hq _
+    apply Safe.bind (freeze_safe fd)
+    intro _ _
+    exact ih
 
 theorem failWith_safe {α : Type} (fds : List Fd) (e : Nat) (Q : Except Err α → Prop)
     (hq : ∀ e', Q (.error e')) : Safe (Disc b) (Sys.failWith (α := α) fds e) Q := by
@@ -187,6 +173,16 @@ theorem fstatat_safe (dir : Fd) (name : Bytes) (hd : 0 ≤ dir) (hn : single nam
     · exact trivial
     · exact failWith_safe _ _ _ (fun _ => trivial)
     · exact trivial
+
+/-- `exists_at`: the same call as `fstatat`, and nothing else -/
+theorem existsAt_safe (dir : Fd) (name : Bytes) (hd : 0 ≤ dir) (hn : single name ∨ isProcProbe name) :
+    Safe (Disc b) (Sys.existsAt dir name) (fun _ => True) := by
+  unfold Sys.existsAt
+  split
+  · exact trivial
+  · refine ⟨⟨rfl, Or.inl ⟨hd, hn⟩⟩, fun r _ => ?_⟩
+    dsimp only
+    split <;> exact trivial
 
 theorem single_nil : single [] := by simp [single, Path.containsSlash]
 
